@@ -56,6 +56,10 @@ func load() {
 			}
 		}
 	}
+	baseParams = map[string]int{}
+	for k, v := range params {
+		baseParams[k] = v
+	}
 	path := os.Getenv("VERIF_REPLAY")
 	if path == "" {
 		return
@@ -86,6 +90,11 @@ func LoadFile(path string) {
 		panic(err)
 	}
 	recs = rf.Replay
+	// parameters are per replay file: nothing leaks from the file replayed before
+	params = map[string]int{}
+	for k, v := range baseParams {
+		params[k] = v
+	}
 	for k, v := range rf.Params {
 		params[k] = v
 	}
@@ -197,6 +206,8 @@ var castagnoli = crc32.MakeTable(crc32.Castagnoli)
 func CRC32C(prev uint32, data []byte) uint32 { return crc32.Update(prev, castagnoli, data) }
 
 var tmpDirs []string
+
+var baseParams map[string]int
 
 // TempDir returns a scratch directory: a fixed virtual path under the engine's in-memory file
 // system, a fresh real directory natively.
